@@ -2,7 +2,7 @@
     Tables GENERATED from operations.py (Gen/OpsTable.v); evaluator of Model/Core.v. *)
 From Coq Require Import List Arith Bool Reals Lra.
 From Coquelicot Require Import Coquelicot.
-From QV Require Import Base.RealOps Gen.OpsTable Model.Core Proofs.OpsRules Proofs.CoreLists Proofs.CoreR.
+From QV Require Import Base.RealOps Gen.OpsTable Model.Core Model.CoreQ Proofs.OpsRules Proofs.CoreLists Proofs.CoreR Proofs.CoreQFast.
 Import ListNotations.
 Local Open Scope R_scope.
 
@@ -48,6 +48,12 @@ Print Assumptions C01_x_minus_x.
 Theorem C01_x_div_x : forall rho v e, v <> 0 -> rerr2 rho [ODer (FB DIV (RObj 0) (RObj 0)); OMeas v e] 1 = 0.
 Proof. exact x_div_x_zero. Qed.
 Print Assumptions C01_x_div_x.
+
+(** the table-sharing checker that the correspondence runs decides exactly the specification check
+    (model value / variance / sources / derivatives of Model/Core.v against the observations) *)
+Theorem C01_checker_is_spec : forall c, check_case_fast c = check_case c.
+Proof. exact check_case_fast_spec. Qed.
+Print Assumptions C01_checker_is_spec.
 
 (** non-vacuity: sqrt((a + b) / 2) with a = 5 +/- 1/2, b = 2 +/- 1/5 meets the hypotheses *)
 Example C01_nonvacuous :
